@@ -101,8 +101,20 @@ def _pset(I, recv, fld, fd, val):
     I.st.write_field(recv.t, fld, VSet(Ref, z3.Store(cur.arr, fd.t, val)))
 
 
+def _requires_open(I, fd, op):
+    """precondition of every registration change at Poll/EPoll (C10): the descriptor's number is read through fileno() at that moment,
+    and a closed socket reports -1, so the kernel registration and the number -> descriptor map entry of the real number would
+    survive (state retained for a connection that is gone, C12).  Discharged at the call sites in sockets.py / file.py."""
+    if 'G_closed' in I.st.fields and isinstance(fd, VRef) and op == 'discard' and I.spec.prop == 'C12':
+        owner = I.local('self')
+        closed = I.fz(owner, 'G_closed') if getattr(owner, 'cls', None) in ('Client', 'File') else I.fz(fd, 'G_closed')   # endpoints keep the ghost on themselves
+        I.oblige('poller.%s.requires.descriptor_not_yet_closed' % op, z3.Not(closed),
+                 detail='the poller must be told to forget a descriptor BEFORE it is closed (fileno() of a closed socket is -1)')
+
+
 def s_addWriter(I, recv, args, kw):
     src, fd = args
+    _requires_open(I, fd, 'addWriter')
     I.st.ghost.setdefault('POLLER_OPS', []).append(('addWriter', fd))
     _pset(I, recv, 'P_write', fd, True)
     return NONE
@@ -110,6 +122,7 @@ def s_addWriter(I, recv, args, kw):
 
 def s_addReader(I, recv, args, kw):
     src, fd = args
+    _requires_open(I, fd, 'addReader')
     I.st.ghost.setdefault('POLLER_OPS', []).append(('addReader', fd))
     _pset(I, recv, 'P_read', fd, True)
     return NONE
@@ -117,6 +130,7 @@ def s_addReader(I, recv, args, kw):
 
 def s_removeWriter(I, recv, args, kw):
     (fd,) = args
+    _requires_open(I, fd, 'removeWriter')
     I.oblige('removeWriter.requires.is_writing', z3.Select(I.field(recv, 'P_write').arr, fd.t),
              detail='BasePoller.removeWriter raises ValueError for a descriptor that is not registered')
     _pset(I, recv, 'P_write', fd, False)
@@ -125,12 +139,14 @@ def s_removeWriter(I, recv, args, kw):
 
 def s_removeReader(I, recv, args, kw):
     (fd,) = args
+    _requires_open(I, fd, 'removeReader')
     _pset(I, recv, 'P_read', fd, False)
     return NONE
 
 
 def s_discard(I, recv, args, kw):
     (fd,) = args
+    _requires_open(I, fd, 'discard')
     _pset(I, recv, 'P_read', fd, False)
     _pset(I, recv, 'P_write', fd, False)
     return NONE
@@ -158,6 +174,8 @@ def srv_objs(I):
     cq = I.field(self, '_closeq')
     I.assume(z3.ForAll([x], z3.And(z3.Select(cq.arr, x) >= 0, z3.Select(cq.arr, x) <= 1)), 'rep invariant: _closeq has no duplicates')
     I.assume(z3.Select(cl.arr, core.null()) == 0)
+    I.assume(z3.Implies(z3.Or(z3.Select(cl.arr, sock.t) > 0, sock.t == I.field(self, '_sock').t), z3.Not(I.fz(sock, 'G_closed'))),
+             'rep invariant: connected sockets and the listener are open (only _close closes them, and it forgets them)')
     b = buf_of(I, self, sock)
     I.assume(b.lo <= b.hi)
     I.st.inputs['buffer.len'] = b.hi - b.lo
